@@ -68,11 +68,15 @@ type Pkg struct {
 }
 
 type Settings struct {
-	All   *bool    `json:"all,omitempty"`
-	Inc   string   `json:"inc,omitempty"` // "" = not set
-	Exc   string   `json:"exc,omitempty"`
-	Rec   *bool    `json:"rec,omitempty"`
-	ExSub []string `json:"exsub,omitempty"` // nil = not set
+	All *bool  `json:"all,omitempty"`
+	Inc string `json:"inc,omitempty"` // "" = not set
+	Exc string `json:"exc,omitempty"`
+	// IncEmpty / ExcEmpty: the package writes an explicit empty string (`include-interface-regex: ""`),
+	// which switches off a regex set at a higher level (the most specific level that sets it wins)
+	IncEmpty bool     `json:"inc_empty,omitempty"`
+	ExcEmpty bool     `json:"exc_empty,omitempty"`
+	Rec      *bool    `json:"rec,omitempty"`
+	ExSub    []string `json:"exsub,omitempty"` // nil = not set
 }
 
 type IfaceCfg struct {
@@ -613,6 +617,20 @@ func gen(t *rapid.T) Case {
 		if pct(t, "pkg-exc", 30) {
 			pc.S.Exc = genRegex(t, "pkg-exc", localNames)
 		}
+		// an explicit empty string where a higher level (top level or a configured ancestor) sets a regex
+		higherInc, higherExc := c.Root.Inc != "", c.Root.Exc != ""
+		for _, prev := range c.Cfgs {
+			if isUnder(p.Dir, prev.Dir) {
+				higherInc = higherInc || prev.S.Inc != ""
+				higherExc = higherExc || prev.S.Exc != ""
+			}
+		}
+		if pc.S.Inc == "" && higherInc && pct(t, "pkg-inc-empty", 35) {
+			pc.S.IncEmpty = true
+		}
+		if pc.S.Exc == "" && higherExc && pct(t, "pkg-exc-empty", 35) {
+			pc.S.ExcEmpty = true
+		}
 		if fr, ok := forcedRec[p.Dir]; ok {
 			pc.S.Rec = fr
 		} else if len(goDesc(p.Dir)) > 0 {
@@ -701,9 +719,9 @@ func gen(t *rapid.T) Case {
 				case "all":
 					c.Cfgs[j].S.All = bptr(rapid.Bool().Draw(t, "pin-all"))
 				case "inc":
-					c.Cfgs[j].S.Inc = genRegex(t, "pin-inc", allNames)
+					c.Cfgs[j].S.Inc, c.Cfgs[j].S.IncEmpty = genRegex(t, "pin-inc", allNames), false
 				case "exc":
-					c.Cfgs[j].S.Exc = genRegex(t, "pin-exc", allNames)
+					c.Cfgs[j].S.Exc, c.Cfgs[j].S.ExcEmpty = genRegex(t, "pin-exc", allNames), false
 				case "rec":
 					c.Cfgs[j].S.Rec = bptr(rapid.Bool().Draw(t, "pin-rec"))
 				case "exsub":
@@ -901,9 +919,13 @@ func renderSettings(sb *strings.Builder, ind string, s Settings) {
 	}
 	if s.Inc != "" {
 		fmt.Fprintf(sb, "%sinclude-interface-regex: %s\n", ind, yq(s.Inc))
+	} else if s.IncEmpty {
+		fmt.Fprintf(sb, "%sinclude-interface-regex: \"\"\n", ind)
 	}
 	if s.Exc != "" {
 		fmt.Fprintf(sb, "%sexclude-interface-regex: %s\n", ind, yq(s.Exc))
+	} else if s.ExcEmpty {
+		fmt.Fprintf(sb, "%sexclude-interface-regex: \"\"\n", ind)
 	}
 	if s.Rec != nil {
 		fmt.Fprintf(sb, "%srecursive: %v\n", ind, *s.Rec)
@@ -917,7 +939,7 @@ func renderSettings(sb *strings.Builder, ind string, s Settings) {
 }
 
 func (s Settings) empty() bool {
-	return s.All == nil && s.Inc == "" && s.Exc == "" && s.Rec == nil && s.ExSub == nil
+	return s.All == nil && s.Inc == "" && s.Exc == "" && !s.IncEmpty && !s.ExcEmpty && s.Rec == nil && s.ExSub == nil
 }
 
 func (c *Case) renderConfig(root string) string {
@@ -1073,7 +1095,9 @@ func matchAny(res []string, s string) bool {
 	return false
 }
 
-func sameList(a, b []string) bool { return strings.Join(a, "\x00") == strings.Join(b, "\x00") && (a == nil) == (b == nil) }
+func sameList(a, b []string) bool {
+	return strings.Join(a, "\x00") == strings.Join(b, "\x00") && (a == nil) == (b == nil)
+}
 
 type pkgSel struct {
 	e      eff
@@ -1140,12 +1164,16 @@ func (st *static) world(ask func(key string) bool) *world {
 		switch {
 		case pc.S.Inc != "":
 			e.inc = pc.S.Inc
+		case pc.S.IncEmpty:
+			e.inc = "" // set here, to nothing: only all / listed select
 		case par != nil && choose("inc", par.e.inc != root.inc):
 			e.inc = par.e.inc
 		}
 		switch {
 		case pc.S.Exc != "":
 			e.exc = pc.S.Exc
+		case pc.S.ExcEmpty:
+			e.exc = "" // set here, to nothing: nothing is excluded
 		case par != nil && choose("exc", par.e.exc != root.exc):
 			e.exc = par.e.exc
 		}
@@ -1667,6 +1695,12 @@ func (st *static) classify(ws []*world) (nonTrivial bool, classes []string) {
 		}
 		if pc.S.Exc != "" {
 			add("lvl:exc@pkg")
+		}
+		if pc.S.IncEmpty {
+			add("lvl:inc@pkg=explicit-empty-over-higher-level")
+		}
+		if pc.S.ExcEmpty {
+			add("lvl:exc@pkg=explicit-empty-over-higher-level")
 		}
 		if pc.S.ExSub != nil {
 			add("lvl:exsub@pkg")
